@@ -291,6 +291,186 @@ def digest_rules(prog, chk, pid):
     chk.require(want <= set(users), P("digest-single-helper"), fi.qualname, "used by %s" % sorted(set(users)), where, "signing and verification derive the hash integer through the same helper", "helper is not used by %s" % sorted(want - set(users)))
 
 
+def rfc6979_rules(prog, chk, pid):
+    """RFC 6979 section 3.2 as a script of HMAC operations: the trace of generate_k is replayed into HMAC(key)[message parts] terms and
+    compared step by step (D, E, F, G, H1-H3 with rolen = ceil(qlen / 8), acceptance 1 <= k < q, K/V update on rejection)"""
+    P = lambda s: "%s.%s" % (pid, s)
+    fi = prog.func(E + "rfc6979.generate_k")
+    where = "%s:%d" % (fi.file, fi.lineno)
+    ex = Exec(prog, policy=lambda e, f, d: f.name == "hmac_compat")
+    res = ex.run(fi)
+    p_order, p_sec, p_hash, p_data = [mk("param", x) for x in fi.params[:4]]
+    p_extra = mk("param", fi.params[5])
+    # ---- replay the HMAC objects
+    objs = {}  # uid of hmac.new result -> [key, [parts]]
+    dig = {}  # uid of digest result -> ("H", key_nf, parts_nf)
+
+    def nf(t):
+        t = unsnap(t)
+        if t.uid in dig:
+            return dig[t.uid]
+        if t.op == "bin" and t.args[0] == "Add":
+            a, b = nf(t.args[1]), nf(t.args[2])
+            return ("cat",) + (a[1:] if isinstance(a, tuple) and a[0] == "cat" else (a,)) + (b[1:] if isinstance(b, tuple) and b[0] == "cat" else (b,))
+        return t
+
+    order_ok = True
+    for e in res.events:
+        if e.kind == "extcall" and e.d["name"] == "hmac.new":
+            a = list(e.d["args"])
+            kw = e.d["kwargs"]
+            key = a[0]
+            msg = a[1] if len(a) > 1 else kw.get("msg")
+            dm = a[2] if len(a) > 2 else kw.get("digestmod")
+            if dm is None or unsnap(dm) is not p_hash:
+                order_ok = False
+            objs[unsnap(e.d["result"]).uid] = [nf(key), [nf(msg)] if msg is not None and unsnap(msg) is not NONE else []]
+        elif e.kind == "mcall" and e.d["name"] in ("update", "digest"):
+            r = unsnap(e.d["recv"])
+            if r.uid not in objs:
+                continue
+            if e.d["name"] == "update":
+                objs[r.uid][1].append(nf(e.d["args"][0]))
+            else:
+                k_, parts = objs[r.uid]
+                flat = []
+                for p_ in parts:
+                    flat.extend(p_[1:] if isinstance(p_, tuple) and p_ and p_[0] == "cat" else [p_])
+                dig[unsnap(e.d["result"]).uid] = ("H", k_, tuple(flat))
+    # ---- the script
+    holen = None
+    for e in res.events:
+        if e.kind == "extcall" and e.d["name"] == "hmac.new":
+            k0 = unsnap(e.d["args"][0])
+            if k0.op == "bin" and k0.args[0] == "Mult":
+                holen = [unsnap(x) for x in (k0.args[1], k0.args[2]) if not is_const(x)][0]
+            break
+    ok = holen is not None and holen.op == "attr" and holen.args[1] == "digest_size" and unsnap(holen.args[0]).op == "call" and unsnap(unsnap(holen.args[0]).args[0]) is p_hash and order_ok
+    why = "hash length is not hash_func().digest_size, or an HMAC is made with another hash"
+    steps = {}
+    if ok:
+        def rep(byte):
+            for cand in (mk("bin", "Mult", C(bytes([byte])), holen), mk("bin", "Mult", holen, C(bytes([byte])))):
+                yield cand
+        V0s, K0s = list(rep(1)), list(rep(0))
+        x_oct = None
+        h_oct = None
+        for e in res.events:
+            if e.kind == "call" and e.d["callee"].name == "number_to_string" and [unsnap(a) for a in e.d["args"]] == [p_sec, p_order]:
+                x_oct = unsnap(e.d["result"])
+            if e.kind == "call" and e.d["callee"].name == "bits2octets" and [unsnap(a) for a in e.d["args"]] == [p_data, p_order]:
+                h_oct = unsnap(e.d["result"])
+        ok = x_oct is not None and h_oct is not None
+        why = "int2octets(x) = number_to_string(secexp, order) or bits2octets(data, order) is missing"
+    if ok:
+        lr_outer = [l for l in ex.loops.values() if l.kind == "while" and "k" in l.init and "v" in l.init]
+        ok = len(lr_outer) == 1
+        why = "no retry loop carrying K and V"
+    if ok:
+        lo = lr_outer[0]
+        K2, V2 = nf(lo.init["k"]), nf(lo.init["v"])
+
+        def is_H(t, key_pred, parts_pred):
+            return isinstance(t, tuple) and t[0] == "H" and key_pred(t[1]) and parts_pred(t[2])
+
+        eqt = lambda a, b: (a is b) if isinstance(a, Term) and isinstance(b, Term) else a == b
+        inl = lambda a, cands: any(eqt(a, c) for c in cands)
+        # G: V2 = HMAC(K2)[V1];  E: V1 = HMAC(K1)[V0];  F: K2 = HMAC(K1)[V1 01 x h extra];  D: K1 = HMAC(K0)[V0 00 x h extra]
+        tail = lambda ps, marker, V: len(ps) == 5 and (inl(ps[0], V) if isinstance(V, list) else eqt(ps[0], V)) and is_const(ps[1]) and cval(ps[1]) == marker and ps[2] is x_oct and ps[3] is h_oct and ps[4] is p_extra
+        okG = is_H(V2, lambda k: eqt(k, K2), lambda ps: len(ps) == 1)
+        V1 = V2[2][0] if okG else None
+        okF = okG and is_H(K2, lambda k: True, lambda ps: tail(ps, b"\x01", V1))
+        K1 = K2[1] if okF else None
+        okE = okF and is_H(V1, lambda k: eqt(k, K1), lambda ps: len(ps) == 1 and inl(ps[0], V0s))
+        okD = okE and is_H(K1, lambda k: inl(k, K0s), lambda ps: tail(ps, b"\x00", V0s))
+        ok = okD
+        why = "steps %s of RFC 6979 3.2 are not K = HMAC_K(V || 00/01 || int2octets(x) || bits2octets(h1) [|| extra]), V = HMAC_K(V) starting from V = 01.., K = 00.." % "".join(n for n, o in (("D", okD), ("E", okE), ("F", okF), ("G", okG)) if not o)
+    if ok:
+        # H2: inner loop  while len(T) < rolen: V = HMAC_K(V); T = T || V      rolen = (qlen + 7) // 8, qlen = bit_length(order)
+        li = [l for l in ex.loops.values() if l.kind == "while" and "t" in l.init and l is not lo]
+        ok = len(li) == 1 and is_const(li[0].init["t"]) and cval(li[0].init["t"]) == b""
+        why = "step H1/H2: no inner loop starting from an empty T"
+    if ok:
+        inner = li[0]
+        lk, lv, lt = mk("loopvar", lo.id, "k"), mk("loopvar", inner.id, "v"), mk("loopvar", inner.id, "t")
+        nv = nf(inner.next["v"])
+        ntt = unsnap(inner.next["t"])
+        ok = isinstance(nv, tuple) and nv[0] == "H" and eqt(nv[1], lk) and len(nv[2]) == 1 and eqt(nv[2][0], lv)
+        ok = ok and ntt.op == "bin" and ntt.args[0] == "Add" and unsnap(ntt.args[1]) is lt and nf(ntt.args[2]) == nv
+        why = "step H2 is not V = HMAC_K(V); T = T || V"
+        if ok:
+            conds = [unsnap(e.d["cond"]) for e in res.events if e.kind == "loopcond" and e.d.get("lid") == inner.id] if False else []
+            test = inner.node.test
+            import ast as _ast
+
+            txt = _ast.unparse(test)
+            qlen_calls = [unsnap(e.d["result"]) for e in res.events if e.kind == "call" and e.d["callee"].name == "bit_length" and unsnap(e.d["args"][0]) is p_order]
+            ok = bool(qlen_calls)
+            why = "qlen is not bit_length(order)"
+            if ok:
+                qlen = qlen_calls[0]
+                want = [mk("bin", "FloorDiv", mk("bin", "Add", qlen, C(7)), C(8)), mk("bin", "FloorDiv", mk("bin", "Add", C(7), qlen), C(8))]
+                bound = None
+                for e in res.events:
+                    if e.kind == "op" and e.d["op"] == "Lt" and any(f[0] == "loop" and f[1] == inner.id for f in e.ctx):
+                        l_, r_ = [unsnap(x) for x in e.d["args"]]
+                        if l_.op == "len":
+                            bound = r_
+                ok = bound is not None and any(bound is w for w in want)
+                why = "step H2 runs until len(T) >= %s, RFC 6979 requires rolen = (qlen + 7) // 8 octets" % (show(bound, 5) if bound is not None else "?")
+    if ok:
+        # H3: k = bits2int(T, qlen); accept iff 1 <= k < q; otherwise K = HMAC_K(V || 00), V = HMAC_K(V)
+        b2i = [e for e in res.events if e.kind == "call" and e.d["callee"].name == "bits2int" and any(f[0] == "loop" and f[1] == lo.id for f in e.ctx)]
+        ok = len(b2i) == 1 and unsnap(b2i[0].d["args"][1]) is qlen and unsnap(b2i[0].d["args"][0]).op == "loopexit"
+        why = "step H3 is not bits2int(T, qlen)"
+        if ok:
+            secret = unsnap(b2i[0].d["result"])
+            rets = [e for e in res.events if e.kind == "return" and e.stack == (fi.qualname,)]
+            ok = len(rets) == 1 and unsnap(rets[0].d["value"]) is secret
+            why = "the value returned is not the candidate k"
+            if ok:
+                rs = []
+                for f in rets[0].ctx:
+                    if f[0] == "if":
+                        r = rel(f[1], f[2])
+                        rs.extend(r[1] if r[0] == "and" else [r])
+                txt = "; ".join(show_rel(a, 4) for a in rs)
+                lower = any(a[0] == "rel" and a[1] == "LtE" and is_const(a[2]) and cval(a[2]) == 1 and unsnap(a[3]) is secret for a in rs) or any(a[0] == "rel" and a[1] == "Lt" and is_const(a[2]) and cval(a[2]) == 0 and unsnap(a[3]) is secret for a in rs)
+                upper = any(a[0] == "rel" and a[1] == "Lt" and unsnap(a[2]) is secret and unsnap(a[3]) is p_order for a in rs)
+                ok = lower and upper
+                why = "a candidate is accepted under (%s), RFC 6979 requires 1 <= k < q" % txt[:120]
+        if ok:
+            nk, nv2 = nf(lo.next["k"]), nf(lo.next["v"])
+            vexit = mk("loopexit", inner.id, "v")
+            okk = isinstance(nk, tuple) and nk[0] == "H" and eqt(nk[1], lk) and len(nk[2]) == 2 and eqt(nk[2][0], vexit) and is_const(nk[2][1]) and cval(nk[2][1]) == b"\x00"
+            okv = isinstance(nv2, tuple) and nv2[0] == "H" and nv2[1] == nk and len(nv2[2]) == 1 and eqt(nv2[2][0], vexit)
+            ok = okk and okv
+            why = "on rejection K, V are not updated as K = HMAC_K(V || 00), V = HMAC_K(V)"
+    chk.require(ok, P("rfc6979-script"), fi.qualname, "steps B-H of RFC 6979 3.2 replayed as HMAC terms", where,
+                "V = 01.., K = 00..; K = HMAC_K(V||00||x||h1||extra); V = HMAC_K(V); K = HMAC_K(V||01||x||h1||extra); V = HMAC_K(V); repeat T = T||HMAC_K(V) until rolen = ceil(qlen/8) octets; k = bits2int(T, qlen) accepted iff 1 <= k < q, else K = HMAC_K(V||00), V = HMAC_K(V)", why)
+    # ---- bits2int / bits2octets
+    fb = prog.func(E + "rfc6979.bits2int")
+    exb = Exec(prog, policy=lambda e, f, d: False)
+    rb = exb.run(fb)
+    rets = [e for e in rb.events if e.kind == "return" and e.stack == (fb.qualname,)]
+    okb = len(rets) == 2
+    if okb:
+        shapes = sorted(show(unsnap(r.d["value"]), 6) for r in rets)
+        g = [e for e in rb.events if e.kind == "op" and e.d["op"] in ("Gt", "Lt")]
+        okb = any(">>" in s_ and "len(data) * 8" in s_.replace("(len(data) * 8)", "len(data) * 8") and "- qlen" in s_ for s_ in shapes) and any("hexlify" in s_ and ">>" not in s_ for s_ in shapes)
+    chk.require(okb, P("rfc6979-bits2int"), fb.qualname, "x = int(hexlify(data), 16); x >> (8*len(data) - qlen) if 8*len(data) > qlen else x", "%s:%d" % (fb.file, fb.lineno), "bits2int keeps the leftmost qlen bits (RFC 6979 2.3.2)", "bits2int is not the leftmost-qlen-bits conversion")
+    fo = prog.func(E + "rfc6979.bits2octets")
+    exo = Exec(prog, policy=lambda e, f, d: False)
+    ro = exo.run(fo)
+    v = unsnap(ro.ret) if ro.ret is not None else None
+    oko = v is not None and v.op == "call" and "number_to_string_crop" in show(v.args[0], 3)
+    if oko:
+        a0, a1 = [unsnap(x) for x in v.args[1][:2]]
+        s0 = show(a0, 8)
+        oko = a1.op == "param" and a1.args[0] == fo.params[1] and a0.op == "phi" and "bits2int" in s0 and "- order" in s0 and "< 0" in show(a0.args[0], 6)
+    chk.require(oko, P("rfc6979-bits2octets"), fo.qualname, "z1 = bits2int(data, qlen); z2 = z1 - q; int2octets(z2 if z2 >= 0 else z1)", "%s:%d" % (fo.file, fo.lineno), "bits2octets reduces once modulo q (RFC 6979 2.3.4)", "bits2octets is not z1 mod q by one conditional subtraction")
+
+
 def run(prog, chk, tier):
     chk.explanation = ("Only the structural part of the statement is decided: the range guards on r and s (normal forms Lt(x, 1), Lt(n-1, x), returning False) dominate the modular "
                        "inversion; the verification verdict is the ECDSA equation as a data-flow fact; signing never returns r = 0 or s = 0 and the deterministic variant "
@@ -304,5 +484,6 @@ def run(prog, chk, tier):
     conversion_rules(prog, chk, "C18")
     canon_rules(prog, chk, "C18")
     digest_rules(prog, chk, "C18")
+    rfc6979_rules(prog, chk, "C18")
     chk.assume("group orders are >= 2, so fixed-length signature fields are at least one byte long")
     chk.assume("numeric correctness of ECDSA (group law: C17 clauses; hash functions; RFC 6979 HMAC-DRBG) is outside this check")
